@@ -9,16 +9,28 @@
 //   round trip        over the block-function contracts; the reference's round function is replaced by an
 //                     uninterpreted function (a Feistel network is invertible whatever f is)
 //
-// The rounds are macro-expanded straight-line code: there is no helper to replace inside the block functions,
-// so the block-function contracts compare the real code with the reference directly.
+// The rounds are macro-expanded straight-line code indexing `const` tables: there is no helper to replace inside the
+// block functions or the key schedule, so their contracts compare the real code with the reference directly.
 //
-// STATUS.  Equivalence over symbolic lookups in the 256 x 32-bit S-boxes is expensive for every solver tried: one
-// round function (four lookups per side) takes ~500 s with CaDiCaL.  The contracts of the block functions
-// (c_cast5_enc_state / c_cast5_dec_state: 64 lookups per side) and of schedule::key_schedule (c_cast5_schedule_fn:
-// 160 lookups per side) were written but NOT discharged within the session; they are kept as `@candidate`
-// (ignored by the ledger) and the obligations that compose over them say so in `uses=`.  What IS discharged for
-// conformance: the tables, the three round functions (thorough), the RFC's appendix B.1 vectors through the
-// real constructor and block functions (x_cast5_rfc_vectors), and all the composition / plumbing obligations.
+// STATUS.  Equivalence over symbolic lookups in the 256 x 32-bit S-boxes is hopeless for the SAT back ends (CBMC encodes
+// a lookup in a constant table as 256 implications on fresh result bits: one round function, four lookups per side,
+// takes ~500 s with CaDiCaL, and even two copies of the SAME macro on the SAME index do not finish in 200 s), but cheap
+// for the SMT back end, which keeps the tables as arrays: with `#[kani::solver(z3)]` the three round functions take
+// 0.1 s each and schedule::key_schedule (c_cast5_schedule_fn, 160 lookups per side) 3 s.  Both are registered.
+// The block functions (c_cast5_enc_state / c_cast5_dec_state) are still NOT discharged and stay `@candidate` (ignored by
+// the ledger; the obligations that compose over them say so in `uses=`).  What was measured for them:
+//   * sixteen rounds of the macros f1!/f2!/f3! written out in a harness == bcref::cast5::encrypt_words: z3 7-12 s;
+//   * the real encrypt_block (same rounds behind InOut / slice / try_into / from_be_bytes / copy_from_slice): z3 and cvc5
+//     > 300 s, already when only the input conversion is added to the harness-level rounds (the byte plumbing through
+//     pointers defeats the term-level sharing the SMT solver relies on); SAT solvers > 600 s;
+//   * the reference's round functions replaced by wrappers of the real macros (same tables on both sides): no help;
+//   * lock-step cuts (u32::wrapping_add / wrapping_sub / rotate_left stubbed on both sides by a transcript that asserts
+//     and then assumes argument equality call by call, so that every cut compares at most two lookups): CaDiCaL > 400 s,
+//     z3 > 300 s.  `u32::rotate_left` etc. CAN be stubbed (`#[kani::stub(u32::rotate_left, f)]`), which is the only
+//     observation point inside the macro-expanded rounds.
+// What IS discharged for conformance: the tables, the three round functions, schedule::key_schedule, the RFC's appendix B.1
+// vectors through the real constructor and block functions (x_cast5_rfc_vectors), and all the composition / plumbing
+// obligations.
 //
 // @module file=cast5/src/lib.rs
 // @config name=zeroize features=zeroize
